@@ -22,12 +22,19 @@ import (
 // incoming one stays open (a half-broken link: the server has not noticed any disconnection).
 type faultyStream struct {
 	qnet.Stream
-	fail int32
+	fail    int32         // 1: writes are refused; 2: writes wait for release (a peer that stopped reading)
+	blocked int32         // writers currently waiting
+	release chan struct{} // closed to let stalled writers go on
 }
 
 func (s *faultyStream) Write(d []byte) (int, error) {
-	if atomic.LoadInt32(&s.fail) != 0 {
+	switch atomic.LoadInt32(&s.fail) {
+	case 1:
 		return 0, errors.New("harness: link fault, write refused")
+	case 2:
+		atomic.AddInt32(&s.blocked, 1)
+		<-s.release
+		atomic.AddInt32(&s.blocked, -1)
 	}
 	return s.Stream.Write(d)
 }
@@ -44,7 +51,7 @@ func (l *faultyListener) Accept() (qnet.Stream, error) {
 	if err != nil {
 		return nil, err
 	}
-	f := &faultyStream{Stream: s}
+	f := &faultyStream{Stream: s, release: make(chan struct{})}
 	l.mu.Lock()
 	l.streams = append(l.streams, f)
 	l.mu.Unlock()
@@ -101,7 +108,9 @@ func c14faulty(c *wk.Ctx, i int, rng *rand.Rand) {
 		conn   int // index of its server-side stream
 		mu     sync.Mutex
 		got    []int32
+		ticks  []uint64
 		closed bool
+		cancel func()
 	}
 	connect := func() (probe.ProbeProxy, int, error) {
 		before := fl.count()
@@ -129,6 +138,13 @@ func c14faulty(c *wk.Ctx, i int, rng *rand.Rand) {
 			// per-message wrapper of its connection)
 			p.EnableStats(true)
 		}
+		// the registration order of the two subscriptions of a subscriber varies
+		var tch chan uint64
+		if rng.Intn(2) == 0 {
+			if _, tch, err = p.SubscribeTick(); err != nil {
+				return nil, err
+			}
+		}
 		cancel, ch, err := p.SubscribeLevel()
 		if err != nil {
 			return nil, err
@@ -138,13 +154,27 @@ func c14faulty(c *wk.Ctx, i int, rng *rand.Rand) {
 			cancel()
 			for range ch {
 			}
-			_, ch, err = p.SubscribeLevel()
+			cancel, ch, err = p.SubscribeLevel()
 			if err != nil {
 				return nil, err
 			}
 			resubscribed++
 		}
-		s := &sub{conn: conn}
+		s := &sub{conn: conn, cancel: cancel}
+		// the same subscriber also listens to the signal tick
+		if tch == nil {
+			if _, tch, err = p.SubscribeTick(); err != nil {
+				return nil, err
+			}
+		}
+		go func() {
+			for v := range tch {
+				s.mu.Lock()
+				s.ticks = append(s.ticks, v)
+				s.mu.Unlock()
+				atomic.AddInt64(&progress, 1)
+			}
+		}()
 		go func() {
 			for v := range ch {
 				s.mu.Lock()
@@ -160,6 +190,7 @@ func c14faulty(c *wk.Ctx, i int, rng *rand.Rand) {
 	}
 	n := 2 + rng.Intn(4)
 	subs := make([]*sub, 0, n+1)
+	tickBase := map[int]int{} // emissions made before subscriber k joined
 	for k := 0; k < n; k++ {
 		s, err := subscribe()
 		if err != nil {
@@ -176,6 +207,8 @@ func c14faulty(c *wk.Ctx, i int, rng *rand.Rand) {
 	victim := rng.Intn(n) // position in registration order
 	healthyBefore := rng.Intn(4)
 	var accepted []int32
+	var emitted []uint64
+	tickSeq := uint64(rng.Intn(1000))
 	last := impl.InitLevel
 	next := int32(1000 + rng.Intn(1000))
 	detail := map[string]interface{}{"subscribers": n, "failing_link_is_subscriber": victim}
@@ -202,7 +235,7 @@ func c14faulty(c *wk.Ctx, i int, rng *rand.Rand) {
 			err := impl.Helper.UpdateLevel(v)
 			accepted, last = append(accepted, v), v
 			trace = append(trace, fmt.Sprintf("service UpdateLevel(%d) -> %v", v, err))
-		case x < 8: // rejected by the validator
+		case x < 8 && x >= 6: // rejected by the validator
 			v := -1 - int32(rng.Intn(100))
 			err := writer.SetLevel(v)
 			trace = append(trace, fmt.Sprintf("SetLevel(%d) -> %v", v, err))
@@ -211,6 +244,11 @@ func c14faulty(c *wk.Ctx, i int, rng *rand.Rand) {
 				c.Viol("faulty-link", i, "write=invalid-accepted", fmt.Sprintf("SetLevel(%d) was not refused", v), detail)
 				return false
 			}
+		case x == 8: // the service emits the signal tick
+			tickSeq++
+			err := impl.Helper.SignalTick(tickSeq)
+			emitted = append(emitted, tickSeq)
+			trace = append(trace, fmt.Sprintf("service SignalTick(%d) -> %v", tickSeq, err))
 		default:
 			got, err := writer.GetLevel()
 			trace = append(trace, fmt.Sprintf("GetLevel() -> %d %v", got, err))
@@ -228,9 +266,36 @@ func c14faulty(c *wk.Ctx, i int, rng *rand.Rand) {
 			return
 		}
 	}
-	if rng.Intn(3) == 0 {
+	left := -1 // a subscriber that cancelled during a stalled fan-out: not judged afterwards
+	if mode := rng.Intn(4); mode == 0 {
 		victim = -1 // no link fails in this history
 		detail["failing_link_is_subscriber"] = "none"
+	} else if mode == 1 && n >= 3 && victim < n-2 {
+		// the link towards the victim stalls in the middle of a fan-out (its peer stopped reading); while the
+		// service is blocked there, a subscriber registered AFTER it cancels; then the link recovers: everybody
+		// else still gets that write exactly once
+		fs := fl.streams[subs[victim].conn]
+		atomic.StoreInt32(&fs.fail, 2)
+		next++
+		v := next
+		upd := make(chan error, 1)
+		go func() { upd <- impl.Helper.UpdateLevel(v) }()
+		for y := 0; y < 100000 && atomic.LoadInt32(&fs.blocked) == 0; y++ {
+			time.Sleep(20 * time.Microsecond)
+		}
+		stalled := atomic.LoadInt32(&fs.blocked) > 0
+		left = victim + 1
+		subs[left].cancel()
+		atomic.StoreInt32(&fs.fail, 0)
+		close(fs.release)
+		<-upd
+		accepted, last = append(accepted, v), v
+		trace = append(trace, fmt.Sprintf("-- service UpdateLevel(%d) while the link towards subscriber %d was stalled (%v); subscriber %d cancelled meanwhile", v, victim, stalled, left))
+		detail["failing_link_is_subscriber"] = fmt.Sprintf("%d (stalled during one fan-out)", victim)
+		if stalled {
+			c.Count("fan_outs_stalled_while_a_later_subscriber_cancelled", 1)
+		}
+		victim = -1
 	} else {
 		atomic.StoreInt32(&fl.streams[subs[victim].conn].fail, 1)
 		trace = append(trace, fmt.Sprintf("-- link towards subscriber %d refuses writes from here on", victim))
@@ -243,6 +308,7 @@ func c14faulty(c *wk.Ctx, i int, rng *rand.Rand) {
 			return
 		}
 		s.got = append([]int32{}, accepted...) // it is only owed what follows
+		tickBase[len(subs)] = len(emitted)
 		subs = append(subs, s)
 		trace = append(trace, "-- one more subscriber joins")
 	}
@@ -255,13 +321,13 @@ func c14faulty(c *wk.Ctx, i int, rng *rand.Rand) {
 	detail["trace"] = trace
 	complete := func() bool {
 		for k, s := range subs {
-			if k == victim {
+			if k == victim || k == left {
 				continue
 			}
 			s.mu.Lock()
-			g := len(s.got)
+			g, t := len(s.got), len(s.ticks)
 			s.mu.Unlock()
-			if g < len(accepted) {
+			if g < len(accepted) || t < len(emitted)-tickBase[k] {
 				return false
 			}
 		}
@@ -273,12 +339,24 @@ func c14faulty(c *wk.Ctx, i int, rng *rand.Rand) {
 		return
 	}
 	for k, s := range subs {
-		if k == victim {
+		if k == victim || k == left {
 			continue
 		}
 		s.mu.Lock()
 		got := append([]int32{}, s.got...)
+		ticks := append([]uint64{}, s.ticks...)
 		s.mu.Unlock()
+		wantTicks := emitted[tickBase[k]:]
+		if len(ticks) < len(wantTicks) {
+			c.Viol("faulty-link", i, "signal=missing/other-link-failing", fmt.Sprintf("subscriber %d (healthy link) received %d of the %d emissions of the signal: got %v want %v", k, len(ticks), len(wantTicks), ticks, wantTicks), detail)
+			return
+		}
+		for j := range ticks {
+			if j >= len(wantTicks) || ticks[j] != wantTicks[j] {
+				c.Viol("faulty-link", i, "signal=wrong-or-duplicate/other-link-failing", fmt.Sprintf("subscriber %d (healthy link) received the emissions %v, emitted were %v", k, ticks, wantTicks), detail)
+				return
+			}
+		}
 		if len(got) < len(accepted) {
 			c.Viol("faulty-link", i, "event=missing/other-link-failing", fmt.Sprintf("subscriber %d (healthy link) received %d change events, %d writes were accepted: got %v want %v", k, len(got), len(accepted), got, accepted), detail)
 			return
